@@ -1,8 +1,9 @@
 SPECIFICATION SpecMc
-CONSTANT MaxOps = 3
-CONSTANT MaxTime = 3
-CONSTANT MaxAccrue = 1
+CONSTANT MaxOps = 2
+CONSTANT MaxTime = 2
+CONSTANT MaxAccrue = 0
 CONSTANT Amounts = {1}
+CONSTANT BothRoutes = TRUE
 CONSTANT Witness = TRUE
 VIEW view
 POSTCONDITION WitnessAll
